@@ -274,6 +274,8 @@ def run(tier, seed, t0):
                     return found
         return found
 
+    for x in LOST_ENCODINGS:
+        disagreements.append({'what': 'to_vec gave no usable answer, so no reader / writer case was built for it: ' + x})
     return conclude(PID, tier, seed, t0, coq, stats, disagreements, failures, search,
                     level_note='theorems about the Gallina model of write_all / to_writer / object_length; tie to the Rust code by differential execution on this run (std::io in the std builds, nostd_io.rs in the nostd builds)')
 
